@@ -163,6 +163,80 @@ func init() {
 	pureModels["errors.New"] = true
 	models["fmt.Sprintf"] = func(fr *Frame, st *State, args []Val, rt types.Type) Val {
 		vc := fr.vc
+		// a constant format made of literal text and plain %s / %v / %d verbs: the
+		// result is the concatenation of the pieces; an operand whose dynamic type
+		// is string stands for itself, any other operand for an unknown string
+		if len(args) == 2 && len(args[1].S) == 4 && vc.inQuant == 0 {
+			for lit, name := range vc.strLits {
+				if name != args[0].S[0] {
+					continue
+				}
+				var pieces []string // literal pieces; "\x00" marks an operand
+				cur := ""
+				ok := true
+				nverbs := 0
+				for i := 0; i < len(lit) && ok; i++ {
+					if lit[i] != '%' {
+						cur += string(lit[i])
+						continue
+					}
+					if i+1 >= len(lit) {
+						ok = false
+						break
+					}
+					switch lit[i+1] {
+					case '%':
+						cur += "%"
+					case 's', 'v', 'd':
+						pieces = append(pieces, cur, "\x00")
+						cur = ""
+						nverbs++
+					default:
+						ok = false
+					}
+					i++
+				}
+				pieces = append(pieces, cur)
+				if !ok || nverbs == 0 || nverbs > 6 {
+					break
+				}
+				sl := args[1]
+				hI := vc.get(st, vc.heapKey(KI))
+				hS := vc.get(st, vc.heapKey(KS))
+				strID := tInt(int64(vc.p.typeID(types.Typ[types.String])))
+				var res Term
+				k := 0
+				for _, pc := range pieces {
+					var t Term
+					if pc == "\x00" {
+						base := vc.elemOff(sl.S[1], tInt(int64(k)), 3)
+						tid := tSel2(hI, sl.S[0], base)
+						ref := tSel2(hI, sl.S[0], tAdd(base, "1"))
+						off := tSel2(hI, sl.S[0], tAdd(base, "2"))
+						other := vc.fresh("fmtarg", "Str")
+						t = vc.define("fmtop", "Str", tIte(tEq(tid, strID), tSel2(hS, ref, off), other))
+						k++
+					} else {
+						if pc == "" {
+							continue
+						}
+						t = vc.strLit(pc)
+					}
+					if res == "" {
+						res = t
+					} else {
+						res = sx("sconcat", res, t)
+					}
+				}
+				if res == "" {
+					res = "sempty"
+				}
+				// the operand count must match the verbs, else the text is unknown
+				r := vc.fresh("sprintf", "Str")
+				vc.assume(st, tImp(tEq(sl.S[2], tInt(int64(nverbs))), tEq(r, res)))
+				return Val{T: rt, S: []Term{r}}
+			}
+		}
 		r := vc.fresh("sprintf", "Str")
 		// a constant format contributes its literal bytes to the result
 		for lit, name := range vc.strLits {
